@@ -58,7 +58,8 @@ class Bytes(Shape):
         if self.n is not None:
             elems = []
             for i in range(self.n):
-                e = z3.BitVec("%s[%d]" % (name, i), 8)
+                e = z3.Int("%s[%d]" % (name, i))
+                ctx.assume_raw(z3.And(e >= 0, e <= 255))
                 ctx.inputs["%s[%d]" % (name, i)] = e
                 elems.append(e)
             return SBytes(elems=elems)
